@@ -104,6 +104,9 @@ func sceneQuery(o ReqOpts) {
 	case 3: // withdraw address
 		r, err := k.WithdrawAddress(gctx, &types.QueryWithdrawAddressRequest{Owner: s.Owner})
 		chk("C17", vf.And(err == nil, r != nil && r.WithdrawAddress.Equals(s.Owner)), "withdraw-address-defaults-to-owner")
+		// an address that is bound as somebody's provider has its own record (none here: the default is itself)
+		rp, err := k.WithdrawAddress(gctx, &types.QueryWithdrawAddressRequest{Owner: s.Provs[0]})
+		chk("C17", vf.And(err == nil, rp != nil && rp.WithdrawAddress.Equals(s.Provs[0])), "withdraw-address-of-an-owned-provider-is-its-own")
 		wa := vf.Addr("wa", 20)
 		k.SetWithdrawAddress(ctx, s.Owner, wa)
 		r, err = k.WithdrawAddress(gctx, &types.QueryWithdrawAddressRequest{Owner: s.Owner})
